@@ -21,9 +21,12 @@ func New() app.EventScope {
 
 // Trigger run all function connected to event
 func (es *EventScope) Trigger(eID interface{}, data interface{}) error {
+	// the listeners run outside the lock (a listener may register another one); the
+	// lists only ever grow by append, so the slice read under the lock is a snapshot
 	es.mu.RLock()
-	defer es.mu.RUnlock()
-	for _, onFunc := range es.eventsCallbacks[eID] {
+	callbacks := es.eventsCallbacks[eID]
+	es.mu.RUnlock()
+	for _, onFunc := range callbacks {
 		if err := onFunc(data); err != nil {
 			return err
 		}
